@@ -29,10 +29,11 @@ def showVal : Val → String
 
 def parseU : String → Option UOp
   | "plus" => some .plus | "minus" => some .minus | "not" => some .not
-  | "bitnot" => some .bitnot | "paren" => some .paren | _ => none
+  | "bitnot" => some .bitnot | "paren" => some .paren | "div" => some .div | _ => none
 
 def showU : UOp → String
   | .plus => "plus" | .minus => "minus" | .not => "not" | .bitnot => "bitnot" | .paren => "paren"
+  | .div => "div"
 
 def parseB : String → Option BOp
   | "is" => some .is | "isnt" => some .isnt | "lt" => some .lt | "lte" => some .lte
